@@ -1,13 +1,15 @@
 /* models for U-eng-cancel: the two hash maps as vectors of (key, record) pairs; the condition variable wait */
 unsigned g_waits; size_t nondet_size(void);
+/* ghost: outstanding tasks that have not reported yet.  Engine accounting: numOutstandingUnfinishedTasks == queued completions + g_running */
+size_t g_running;
 /* finishedTaskInfosCondition.wait(lock): legal only with the mutex held and the queue observed empty under it (lost wake-up guard);
- * while waiting other threads may push finished tasks -- never more than are outstanding */
+ * while waiting other threads may push finished tasks -- each of them one of the still-running outstanding tasks (g_running) */
 static inline void verif_cond_wait(verif_condvar *c, verif_mutex *lock) {
   __CPROVER_assert(lock->held && lock == &g_engine->finishedTaskInfosMutex, "[P:C06] the condition variable is waited on with its mutex held");
   __CPROVER_assert(g_engine->finishedTaskInfos.len == 0, "[P:C06] the engine sleeps only after observing the finished queue empty under the mutex");
   size_t n = nondet_size();
-  __CPROVER_assume(n <= g_engine->numOutstandingUnfinishedTasks && n <= g_engine->finishedTaskInfos.cap);
-  g_engine->finishedTaskInfos.len = n; g_waits++;
+  __CPROVER_assume(n <= g_engine->numOutstandingUnfinishedTasks && n <= g_engine->finishedTaskInfos.cap && n <= g_running);
+  g_engine->finishedTaskInfos.len = n; g_running -= n; g_waits++;
 }
 static inline void vec_taskpair_clear_locked(vec_taskpair *v) {
   __CPROVER_assert(g_engine->taskInfosMutex.held, "[P:C06] taskInfos is modified only with taskInfosMutex held");
